@@ -1268,13 +1268,21 @@ def premise_unique(ctx, path, n, rule="V.are_unique", semantic=True):
                 if o.cond[0] == "c":
                     okall = bool(o.cond[1])
                 else:
-                    for t in set_partition_orderings(n)[:300]:
-                        env = {nm: words[(3 * r) % 53] for nm, r in zip(names, t)}
-                        try:
-                            if all(cval(evaluate(pdb, c, env)) for c in o.pc) and not cval(evaluate(pdb, o.cond, env)):
+                    # the test looks inside the words, so order patterns do not cover it: a proof for arbitrary words,
+                    # or slot-wise over the 53 constants; a failing card-or-blank hand is a counterexample
+                    from .base import decide_site
+                    dec_, how_ = decide_site(ctx, o)
+                    if dec_ is not True and not slotwise_discharge(ctx, o, None, masks_upto(5)):
+                        for t in weak_orderings(n) if n <= 5 else set_partition_orderings(n):
+                            env = {nm: words[(3 * r) % 53] for nm, r in zip(names, t)}
+                            try:
+                                if all(cval(evaluate(pdb, c, env)) for c in o.pc) and not cval(evaluate(pdb, o.cond, env)):
+                                    okall = False
+                            except IndexError:
                                 okall = False
-                        except IndexError:
-                            okall = False
+                        if okall:
+                            rep.uncertified(rule + ".no-panic", "panic site %s in %s (line %s) is not shown safe for every card-or-blank hand (the uniqueness test looks inside the words)" % (o.kind, short(o.fn), o.line), pdb.where(o.fn))
+                            continue
                 rep.ob(rule + ".no-panic", "%s %s L%s" % (short(o.fn), o.kind, o.line), okall, "assert can fail for some card-or-blank hand", pdb.where(o.fn))
             return
         # looks inside the words (hashing, masking): look for a concrete counterexample among hands of real cards —
@@ -1326,7 +1334,7 @@ def premise_unique(ctx, path, n, rule="V.are_unique", semantic=True):
     if consts - {0xFFFFFFFF}:
         rep.uncertified(rule, "%s::are_unique compares slots with constant(s) %s" % (short(path), sorted(consts - {0xFFFFFFFF})), pdb.where(key))
         return
-    orders = weak_orderings(n) if (n <= 5 or ctx.tier == "thorough") else set_partition_orderings(n)
+    orders = weak_orderings(n)
     bad = None
     nb = 0
     for t in orders:
@@ -1343,11 +1351,30 @@ def premise_unique(ctx, path, n, rule="V.are_unique", semantic=True):
         if o.cond[0] == "c":
             rep.ob(rule + ".no-panic", "%s %s L%s" % (short(o.fn), o.kind, o.line), bool(o.cond[1]), "assert can fail", pdb.where(o.fn))
         else:
+            # a panic site that only compares slot words (with each other / u32::MAX) is decided by the order patterns —
+            # all of them; anything else needs a proof for arbitrary words
+            oc_ = set()
+            co_ = all(comparison_only(root, set(names), oc_)[0] for root in [o.cond] + list(o.pc)) and not (oc_ - {0xFFFFFFFF})
+            if not co_:
+                from .base import decide_site
+                dec_, how_ = decide_site(ctx, o)
+                if dec_ is True:
+                    rep.ob(rule + ".no-panic", "%s %s L%s" % (short(o.fn), o.kind, o.line), True)
+                elif dec_ is False:
+                    rep.ob(rule + ".no-panic", "%s %s L%s" % (short(o.fn), o.kind, o.line), False, "panic site fails for %s" % describe_env(how_), pdb.where(o.fn))
+                else:
+                    rep.uncertified(rule + ".no-panic", "panic site %s in %s (line %s) is not a comparison of slot words and could not be decided for arbitrary words" % (o.kind, short(o.fn), o.line), pdb.where(o.fn))
+                continue
             okall = True
-            for t in orders[:200]:
+            for t in orders:
                 env = {nm: 1000 + 10 * r for nm, r in zip(names, t)}
-                if all(cval(evaluate(pdb, c, env)) for c in o.pc) and not cval(evaluate(pdb, o.cond, env)):
+                try:
+                    if all(cval(evaluate(pdb, c, env)) for c in o.pc) and not cval(evaluate(pdb, o.cond, env)):
+                        okall = False
+                        break
+                except IndexError:
                     okall = False
+                    break
             rep.ob(rule + ".no-panic", "%s %s L%s" % (short(o.fn), o.kind, o.line), okall, "assert can fail for some slot pattern", pdb.where(o.fn))
     rep.sample({"rule": rule, "container": short(path), "patterns": len(orders)})
 
